@@ -34,6 +34,11 @@ pub struct ProxyCase {
     /// extra payload frame lengths after the tag frame
     pub payload: Vec<usize>,
     pub schedule: Vec<u16>,
+    /// DEALER-style traffic: requests carry no delimiter frame ([tag, payload..], so a request
+    /// without payload frames travels as [identity, tag]) and workers echo verbatim. Only with
+    /// raw DEALER clients and raw workers.
+    #[serde(default)]
+    pub plain: bool,
 }
 
 enum ClientRt {
@@ -56,8 +61,8 @@ fn pipe_messages(p: &Pipe) -> Result<Vec<Frames>, String> {
     Ok(r.items.into_iter().filter_map(|i| if let RefItem::Message(m) = i { Some(m) } else { None }).collect())
 }
 
-fn request(i: usize, k: usize, payload: &[usize]) -> Frames {
-    let mut m: Frames = vec![vec![], format!("c{}-{}", i, k).into_bytes()];
+fn request(i: usize, k: usize, payload: &[usize], plain: bool) -> Frames {
+    let mut m: Frames = if plain { vec![format!("c{}-{}", i, k).into_bytes()] } else { vec![vec![], format!("c{}-{}", i, k).into_bytes()] };
     for (j, l) in payload.iter().enumerate() {
         m.push(fill((i * 100 + k * 10 + j) as u32, *l));
     }
@@ -83,8 +88,12 @@ pub fn proxy_outcome(c: &ProxyCase) -> Outcome {
     let (r, panics) = capture_panics(|| {
         run_sim(async move {
             let c = c2;
+            let plain = c.plain && c.clients.iter().all(|x| x.kind == 0) && c.workers.iter().all(|w| !*w);
             let mut f: Vec<Failure> = vec![];
             let mut classes: Vec<String> = vec![];
+            if plain {
+                classes.push("dealer-style-traffic-without-delimiter".into());
+            }
             let mut sim = Sim::new();
             let front = sim.socket(Kind::Router, None);
             let back = sim.socket(Kind::Dealer, None);
@@ -194,7 +203,7 @@ pub fn proxy_outcome(c: &ProxyCase) -> Outcome {
                                 }
                             }
                             if sent[i] < c.clients[i].requests && !(*lockstep && *waiting) {
-                                link.raw_send(&request(i, sent[i], &c.payload));
+                                link.raw_send(&request(i, sent[i], &c.payload, plain));
                                 sent[i] += 1;
                                 *waiting = true;
                                 progressed = true;
@@ -222,7 +231,7 @@ pub fn proxy_outcome(c: &ProxyCase) -> Outcome {
                                     progressed = true;
                                 }
                             } else if *phase == 0 && sent[i] < c.clients[i].requests {
-                                let req = request(i, sent[i], &c.payload);
+                                let req = request(i, sent[i], &c.payload, plain);
                                 *call = Some(sim.send(*sock, &req[1..]));
                                 sent[i] += 1;
                                 *phase = 1;
@@ -237,8 +246,10 @@ pub fn proxy_outcome(c: &ProxyCase) -> Outcome {
                             if let Ok((msgs, _)) = link.lib_messages_prefix() {
                                 while *echoed < msgs.len() {
                                     let mut e = msgs[*echoed].clone();
-                                    e.push(b"!".to_vec());
-                                    e.push(vec![]);
+                                    if !plain {
+                                        e.push(b"!".to_vec());
+                                        e.push(vec![]);
+                                    }
                                     link.raw_send(&e);
                                     *echoed += 1;
                                     progressed = true;
@@ -400,7 +411,7 @@ pub fn proxy_outcome(c: &ProxyCase) -> Outcome {
             for (i, cs) in c.clients.iter().enumerate() {
                 for k in 0..cs.requests {
                     let mut m = vec![ids[i].clone()];
-                    m.extend(request(i, k, &c.payload));
+                    m.extend(request(i, k, &c.payload, plain));
                     want_fwd.push(m);
                 }
             }
@@ -423,7 +434,7 @@ pub fn proxy_outcome(c: &ProxyCase) -> Outcome {
                     let ks: Vec<usize> = msgs
                         .iter()
                         .filter(|m| m.first() == Some(&ids[i]))
-                        .filter_map(|m| m.get(2).and_then(|t| std::str::from_utf8(t).ok()).and_then(|t| t.split('-').nth(1)).and_then(|x| x.parse().ok()))
+                        .filter_map(|m| m.get(if plain { 1 } else { 2 }).and_then(|t| std::str::from_utf8(t).ok()).and_then(|t| t.split('-').nth(1)).and_then(|x| x.parse().ok()))
                         .collect();
                     if ks.windows(2).any(|w| w[0] >= w[1]) {
                         fail!(f, "C15/front-to-back-reordered", "worker {} received client {}'s requests in order {:?}", wi, i, ks);
@@ -436,9 +447,11 @@ pub fn proxy_outcome(c: &ProxyCase) -> Outcome {
             for (i, cl) in clients.iter().enumerate() {
                 let want: Vec<Frames> = (0..c.clients[i].requests)
                     .map(|k| {
-                        let mut m = request(i, k, &c.payload);
-                        m.push(b"!".to_vec());
-                        m.push(vec![]);
+                        let mut m = request(i, k, &c.payload, plain);
+                        if !plain {
+                            m.push(b"!".to_vec());
+                            m.push(vec![]);
+                        }
                         m
                     })
                     .collect();
@@ -463,7 +476,7 @@ pub fn proxy_outcome(c: &ProxyCase) -> Outcome {
                                 "client {} received {} replies {:?}, expected its own {}",
                                 i,
                                 m.len(),
-                                m.iter().map(|x| String::from_utf8_lossy(x.get(1).map(|t| t.as_slice()).unwrap_or(b"?")).to_string()).collect::<Vec<_>>(),
+                                m.iter().map(|x| String::from_utf8_lossy(x.get(if plain { 0 } else { 1 }).map(|t| t.as_slice()).unwrap_or(b"?")).to_string()).collect::<Vec<_>>(),
                                 want.len()
                             );
                         }
@@ -566,6 +579,7 @@ fn gen_proxy(s: &mut Src<'_>) -> ProxyCase {
         capture,
         payload,
         schedule: (0..n).map(|_| s.next()).collect(),
+        plain: s.chance(1, 3),
     }
 }
 
@@ -584,8 +598,24 @@ pub fn run(ctx: &Ctx) -> (Report, PropertyMeta) {
                         capture,
                         payload,
                         schedule: vec![],
+                        plain: false,
                     });
                 }
+            }
+        }
+    }
+    // DEALER-style traffic without delimiter, verbatim echo: [identity, tag] travels back to front
+    for capture in [Capture::None, Capture::Push] {
+        for payload in [vec![], vec![0usize], vec![5, 300]] {
+            for nw in 1..=2usize {
+                cases.push(ProxyCase {
+                    clients: vec![ClientSpec { kind: 0, requests: 3 }, ClientSpec { kind: 0, requests: 2 }],
+                    workers: vec![false; nw],
+                    capture,
+                    payload: payload.clone(),
+                    schedule: vec![],
+                    plain: true,
+                });
             }
         }
     }
@@ -597,15 +627,19 @@ pub fn run(ctx: &Ctx) -> (Report, PropertyMeta) {
     report.sections.push(json!({"part": "random chains: 1..4 clients (raw DEALER / raw REQ / library REQ), 1..3 workers (raw echo / library REP), capture none/PUSH/PUB/DEALER, generated actor and byte-delivery schedule", "cases": n}));
     report.merge(r);
 
+    if t == Tier::Thorough {
+        crate::fuzzing::campaign(ctx, &mut report, "sim", 180);
+    }
     let total = report.evaluations;
     health(&mut report, "both-sides-ready-before-a-proxy-poll", total, 300);
     health(&mut report, "with-capture", total, 300);
     health(&mut report, "library-REQ-client", total, 200);
     health(&mut report, "library-REP-worker", total, 200);
+    health_abs(&mut report, "dealer-style-traffic-without-delimiter", 12);
 
     let meta = PropertyMeta {
         level: "exploration",
-        rule: "zeromq::proxy(ROUTER, DEALER, capture) run as one stepped actor between 1..4 clients (raw DEALER pipelining its requests, raw REQ in lock-step, or library REQ sockets) and 1..3 workers (raw echo peers or library REP sockets), capture in {none, PUSH, PUB, DEALER} attached to a raw sink; requests are [delimiter, tag, 0..3 payload frames incl. empty and 70 KB]; generated schedule of actor steps and byte deliveries including deliveries on both sides between two proxy polls. Oracle (wire level, reference-decoded): the multiset of messages the back side wrote to the workers equals identity+request for every request, exactly once, per-client order preserved at each worker; every client's wire carries exactly the echoes of its own requests (in order for lock-step clients); library REQ clients get exactly their own replies in order; the capture stream is the multiset of all forwarded messages and every destination's sequence is a subsequence of it; proxy() is still running. Non-trivial = >= 2 clients, a multi-frame payload and at least one proxy poll with both sides fed; distinct by case".into(),
+        rule: "zeromq::proxy(ROUTER, DEALER, capture) run as one stepped actor between 1..4 clients (raw DEALER pipelining its requests, raw REQ in lock-step, or library REQ sockets) and 1..3 workers (raw echo peers or library REP sockets), capture in {none, PUSH, PUB, DEALER} attached to a raw sink; requests are [delimiter, tag, 0..3 payload frames incl. empty and 70 KB] echoed with a suffix, or DEALER-style [tag, payload..] without delimiter echoed verbatim (so that two-frame messages [identity, tag] travel in both directions); generated schedule of actor steps and byte deliveries including deliveries on both sides between two proxy polls. Oracle (wire level, reference-decoded): the multiset of messages the back side wrote to the workers equals identity+request for every request, exactly once, per-client order preserved at each worker; every client's wire carries exactly the echoes of its own requests (in order for lock-step clients); library REQ clients get exactly their own replies in order; the capture stream is the multiset of all forwarded messages and every destination's sequence is a subsequence of it; proxy() is still running. Non-trivial = >= 2 clients, a multi-frame payload and at least one proxy poll with both sides fed; distinct by case".into(),
         assumptions: vec!["futures::select! picks among ready branches with an unseeded thread-local PRNG: it changes which legal interleaving runs, never the oracle".into()],
         exhaustive: false,
     };
@@ -629,4 +663,8 @@ pub fn replay(_ctx: &Ctx, kind: &str, case: &Value) -> Vec<Failure> {
         _ => Err(vec![Failure::new("replay/unknown-kind", kind.to_string())]),
     }
     .unwrap_or_else(|e| e)
+}
+
+pub fn gen_proxy_pub(s: &mut Src<'_>) -> ProxyCase {
+    gen_proxy(s)
 }
